@@ -172,7 +172,18 @@ func (db *MemDB) AwaitProposal(ctx context.Context, slot uint64) (*eth2api.Versi
 	case <-ctx.Done():
 		return nil, ctx.Err()
 	case block := <-response:
-		return block, nil
+		// Clone before returning, the stored proposal must not be shared with callers.
+		clone, err := core.VersionedProposal{VersionedProposal: *block}.Clone()
+		if err != nil {
+			return nil, err
+		}
+
+		proposal, ok := clone.(core.VersionedProposal)
+		if !ok {
+			return nil, errors.New("invalid versioned proposal")
+		}
+
+		return &proposal.VersionedProposal, nil
 	}
 }
 
@@ -201,8 +212,25 @@ func (db *MemDB) AwaitAttestation(ctx context.Context, slot uint64, commIdx uint
 	case <-ctx.Done():
 		return nil, ctx.Err()
 	case value := <-response:
-		return value, nil
+		return cloneAttestationData(value), nil // Clone before returning.
 	}
+}
+
+// cloneAttestationData returns a deep copy of the attestation data.
+func cloneAttestationData(data *eth2p0.AttestationData) *eth2p0.AttestationData {
+	clone := *data
+
+	if data.Source != nil {
+		source := *data.Source
+		clone.Source = &source
+	}
+
+	if data.Target != nil {
+		target := *data.Target
+		clone.Target = &target
+	}
+
+	return &clone
 }
 
 // AwaitAggAttestation blocks and returns the aggregated attestation for the slot
@@ -275,7 +303,18 @@ func (db *MemDB) AwaitSyncContribution(ctx context.Context, slot, subcommIdx uin
 	case <-ctx.Done():
 		return nil, ctx.Err()
 	case value := <-response:
-		return value, nil
+		// Clone before returning, the stored contribution must not be shared with callers.
+		clone, err := core.SyncContribution{SyncCommitteeContribution: *value}.Clone()
+		if err != nil {
+			return nil, err
+		}
+
+		contrib, ok := clone.(core.SyncContribution)
+		if !ok {
+			return nil, errors.New("invalid sync committee contribution")
+		}
+
+		return &contrib.SyncCommitteeContribution, nil
 	}
 }
 
